@@ -100,14 +100,14 @@ func runsFor(prop, tier string) []run {
 			{"rf5-from-initial", ini(5, 5), pick(6, 7), minutes(pickf(0.4, 3))},
 		}
 	case "C04":
-		alpha := []string{"W0", "R", "Add", "Sync", "Verify", "VerifyEarly", "Remove", "ERR", "MonFail", "Restart"}
+		alpha := []string{"W0", "R", "Add", "Sync", "Verify", "VerifyF", "VerifyEarly", "Remove", "ERR", "MonFail", "Restart"}
 		or := []string{"c04", "c07", "c10"}
 		mk := func(init []string, drain bool) eb.Cfg {
 			a := alpha
 			if !drain {
 				a = append(append([]string{}, alpha...), "MonWake")
 			}
-			return eb.Cfg{RF: 3, N: 3, Alphabet: a, Oracles: or, Drain: drain, MaxWrites: 2, MaxReads: 3, MaxAdds: 2, MaxRestarts: 1, InitOps: init}
+			return eb.Cfg{RF: 3, N: 3, Alphabet: a, Oracles: or, Drain: drain, MaxWrites: 2, MaxReads: 3, MaxAdds: 2, MaxRestarts: 1, MaxFaults: 3, InitOps: init}
 		}
 		return []run{
 			{"rf3-from-3rw", mk(rw3, true), pick(4, 6), minutes(pickf(0.5, 4))},
@@ -179,7 +179,7 @@ func runsFor(prop, tier string) []run {
 				return c
 			}(), pick(26, 30), minutes(pickf(1.2, 8))},
 			{"overlapping-admissions-model-nodes", func() eb.Cfg {
-				c := eb.Cfg{RF: 3, N: 4, Alphabet: []string{"AddB", "AddF", "Sync", "Verify", "W0", "R", "MonFail", "Restart"}, Oracles: or, Drain: true, MaxWrites: 2, MaxReads: 1, MaxAdds: 4, MaxRestarts: 1, MaxFaults: 1, InitOps: started}
+				c := eb.Cfg{RF: 3, N: 4, Alphabet: []string{"AddB", "AddF", "Sync", "Verify", "VerifyF", "W0", "R", "MonFail", "Restart"}, Oracles: or, Drain: true, MaxWrites: 2, MaxReads: 2, MaxAdds: 4, MaxRestarts: 1, MaxFaults: 2, InitOps: append(append([]string{}, started...), "W:0")}
 				return c
 			}(), pick(6, 8), minutes(pickf(0.4, 3))},
 			{"rebuild-killed-at-every-gate-then-retried", mk(withData, []string{"RB", "Step", "Kill", "MonFail", "W0"}, 3, 1, 0, 4), pick(30, 60), minutes(pickf(1.0, 10))},
